@@ -39,21 +39,52 @@ Definition tab_adj (t : ttab) (_ : N) (layout value : bytes) (_ : Z) : Z :=
 
 Definition cell_eqb (a b : cell) : bool :=
   Z.eqb (d_val a) (d_val b) && Z.eqb (d_time a) (d_time b).
-Definition entry_eqb (a b : N * cell) : bool :=
-  N.eqb (fst a) (fst b) && cell_eqb (snd a) (snd b).
-Definition world_eqb (a b : world) : bool :=
-  list_eqb entry_eqb (w_store a) (w_store b) && N.eqb (w_errs a) (w_errs b).
 
+(* The harness lists the live slots only: the scalar metrics, then the label
+   sets of each dimensioned metric in the order of Metric.LabelValues.  The
+   model lists slots in creation order across all metrics, which the harness
+   cannot see; stores are therefore compared as finite maps: the same number of
+   entries, every slot of one present in the other with the same value and
+   the same datum time. *)
+Fixpoint store_find (m : N) (st : store) : option cell :=
+  match st with
+  | [] => None
+  | (m', c) :: r => if N.eqb m m' then Some c else store_find m r
+  end.
+Definition store_sub (a b : store) : bool :=
+  forallb (fun e => match store_find (fst e) b with
+                    | Some c => cell_eqb (snd e) c
+                    | None => false
+                    end) a.
+Definition store_eqb (a b : store) : bool :=
+  Nat.eqb (length a) (length b) && store_sub a b && store_sub b a.
+Definition world_eqb (a b : world) : bool :=
+  store_eqb (w_store a) (w_store b) && N.eqb (w_errs a) (w_errs b).
+
+(* a step of the recorded run: a line given to ProcessLogLine, or label sets
+   (slots) removed with Metric.RemoveDatum by the harness, outside the VM,
+   between two lines - what Store.Gc does *)
+Inductive titem :=
+| TLine (l : line)
+| TExt (ms : list N).
+
+Definition titem_step (i : titem) : hstep :=
+  match i with
+  | TLine l => HLine l
+  | TExt ms => HWorld (ext_del ms)
+  end.
+
+(* obs: the world after every item *)
 Inductive tcase :=
-| TRun (id : N) (cfg : config) (tab : ttab) (w0 : world) (ls : list line) (obs : list world).
+| TRun (id : N) (cfg : config) (tab : ttab) (w0 : world) (items : list titem) (obs : list world).
 
 Definition tcase_id (c : tcase) : N := match c with TRun i _ _ _ _ _ => i end.
 
 Definition tcase_ok (c : tcase) : bool :=
   match c with
-  | TRun _ cfg tab w0 ls obs =>
+  | TRun _ cfg tab w0 items obs =>
       list_eqb world_eqb
-        (run_trace_new (tab_parse tab) (tab_adj tab) cfg ls (w0, vm_init_new)) obs
+        (run_htrace_new (tab_parse tab) (tab_adj tab) cfg (map titem_step items) (w0, vm_init_new)) obs
   end.
 
 Definition mismatches (l : list tcase) : list N := failing tcase_ok tcase_id l.
